@@ -154,7 +154,7 @@ func ZZ_C19_corrupt() {
 	if json.Unmarshal(bz, &kd) != nil {
 		zzsym.Unsupported("cannot re-read the key file")
 	}
-	field := zzsym.Pick("field", 4)
+	field := zzsym.Pick("field", 8)
 	mut := func(b []byte) []byte {
 		c := zzsym.BytesN("garbage", len(b))
 		zzsym.Assume(!bytes.Equal(c, b))
@@ -169,7 +169,16 @@ func ZZ_C19_corrupt() {
 		kd.Salt = mut(kd.Salt)
 	case 3:
 		kd.PubKeyBytes = kd.PubKeyBytes[:len(kd.PubKeyBytes)-1] // truncated
+	case 4:
+		kd.Nonce = kd.Nonce[:len(kd.Nonce)-1] // truncated nonce
+	case 5:
+		kd.Nonce = nil // nonce field missing
+	case 6:
+		kd.PrivKeyEncrypted = kd.PrivKeyEncrypted[:10] // ciphertext shorter than the tag
+	case 7:
+		kd.PrivKeyEncrypted = kd.PrivKeyEncrypted[:len(kd.PrivKeyEncrypted)-1] // truncated ciphertext
 	}
+	zzsym.Region("nonce-of-the-wrong-length", field == 4 || field == 5)
 	zzsym.Region("clear-text-public-key-corrupted", field == 0)
 	bz2, _ := json.Marshal(kd)
 	_ = os.WriteFile(path, bz2, 0600)
